@@ -65,11 +65,13 @@ fn check_alpha(v: Value) -> Result<f64, String> {
         Value::Null => 1.0,
         v => {
             let num = Numeric::try_from(v)?;
-            num.as_unit(Unit::None)
-                .ok_or_else(|| {
-                    expected_to(num, "have unit \"%\" or no units")
-                })?
-                .into()
+            if num.unit.is_percent() {
+                f64::from(num.value) / 100.
+            } else if num.is_no_unit() {
+                num.value.into()
+            } else {
+                return Err(expected_to(num, "have unit \"%\" or no units"));
+            }
         }
     })
 }
